@@ -148,6 +148,66 @@ End Checks.
 
 Definition alt_nonzero (a : float) : bool := negb (a =? 0)%float.
 
+(* ---- the open finding alt_fed_to_datum, quantitatively ----
+   The point's height is fed to the library's datum transform, whose detour through geocentric coordinates recovers the latitude with
+   Bowring's closed formula: exact on the ellipsoid, off by an amount that grows like alt^2 * (a / (a + alt))^3 (a = 6378137 m; the
+   factor is the distance from the earth's axis region: the formula is singular at the centre). Measured on the code over the whole
+   horizontal domain (worst latitude 45 deg for the round trip, high latitudes for the northing), see meta/C18.json:
+     northing            <= 1.39e-14 m   * alt^2 * (a/(a+alt))^3     for -6e6 m <= alt <= 2^25 m
+     latitude there+back <= 1.68e-19 deg * alt^2 * (a/(a+alt))^3
+   The class excuses a deviation only up to these laws with the coefficients rounded up (1.8e-14, 2.0e-19) on top of the nominal
+   tolerance, only on the latitude axis (the easting, the longitude and the altitude are never excused), only for alt <> 0, and only when
+   the same point at height 0 meets the nominal tolerances. Below -6e6 m (less than 380 km from the earth's centre, or beyond it) the
+   detour is singular - observed: 6 deg at -6.3e6 m, antipodal output below the centre - and no bound is claimed: zone ZDeep.
+   Altitudes outside +-2^25 m (the vertical extent of the ID space) are outside the property's domain: zone ZBeyond (case skipped);
+   NaN / infinite altitudes do not belong to valid points: zone ZNone (bad case). *)
+Definition q_a : Q := 6378137 # 1.
+Definition q_alt_max : Q := 33554432 # 1.
+Definition q_alt_deep : Q := - (6000000 # 1).
+Definition alt_factor (A : Q) : Q := A * A * ((q_a / (q_a + A)) * (q_a / (q_a + A)) * (q_a / (q_a + A))).
+Definition excess_y (A : Q) : Q := (18 # 1000000000000000) * alt_factor A.             (* 1.8e-14 m per m^2 *)
+Definition excess_lat (A : Q) : Q := (2 # 10000000000000000000) * alt_factor A.        (* 2.0e-19 deg per m^2 *)
+Inductive alt_zone := ZNone | ZBeyond | ZDeep | ZIn.
+Definition alt_zone_of (alt : float) : alt_zone :=
+  match fq alt with
+  | None => ZNone
+  | Some A => if negb (Qle_bool (- q_alt_max) A && Qle_bool A q_alt_max) then ZBeyond
+              else if Qle_bool q_alt_deep A then ZIn else ZDeep
+  end.
+(* a finite longitude / latitude inside the documented domain *)
+Definition lonlat_valid (lon lat : float) : bool :=
+  match fq lon, fq lat with
+  | Some _, Some _ => (abs lon <=? 180)%float && (abs lat <=? c_latmax)%float
+  | _, _ => false
+  end.
+Section Excuses.
+  Variable yref : float -> float.
+  (* forward: only the northing may deviate, by at most the law *)
+  Definition fwd_excused (p : point) (q : ppoint) : bool :=
+    alt_nonzero (palt p) &&
+    match alt_zone_of (palt p), fq (palt p) with
+    | ZIn, Some A => check_x (px q) (plon p) && fclose (py q) (yref (plat p)) (tol_ref + excess_y A)
+    | ZDeep, _ => true
+    | _, _ => false
+    end.
+  (* there and back: only the latitude may deviate, by at most the law; longitude and altitude as always *)
+  Definition back_excused (p g : point) : bool :=
+    alt_nonzero (palt p) &&
+    match alt_zone_of (palt p), fq (palt p) with
+    | ZIn, Some A => lon_close (plon g) (plon p) && fclose (plat g) (plat p) (tol_deg + excess_lat A) && feqb_bits (palt g) (palt p)
+    | ZDeep, _ => true
+    | _, _ => false
+    end.
+  (* the way back refused the point (latitude above the limit): explicable only if the latitude is within the law of the limit *)
+  Definition refusal_excused (p : point) : bool :=
+    alt_nonzero (palt p) &&
+    match alt_zone_of (palt p), fq (palt p), fq (abs (plat p)), fq c_latmax with
+    | ZIn, Some A, Some L, Some M => Qle_bool (M - L) (tol_deg + excess_lat A)
+    | ZDeep, _, _, _ => true
+    | _, _, _, _ => false
+    end.
+End Excuses.
+
 Definition ppoint_eqb (a b : ppoint) : bool := feqb_bits (px a) (px b) && feqb_bits (py a) (py b) && feqb_bits (pz a) (pz b).
 Definition point_eqb (a b : point) : bool := feqb_bits (plon a) (plon b) && feqb_bits (plat a) (plat b) && feqb_bits (palt a) (palt b).
 Fixpoint forall2b {A B} (f : A -> B -> bool) (l : list A) (m : list B) : bool :=
@@ -524,6 +584,53 @@ Theorem check_fwd_xy_sound yref p q : check_fwd_xy yref p q = true ->
      forall phi, Rabs (Q2R YR - merc_y phi) <= 1 / 10000000 -> Rabs (Q2R Y - merc_y phi) <= 1 / 1000000).
 Proof.
   unfold check_fwd_xy. rewrite andb_true_iff. intros [H1 H2]. split; [now apply check_x_sound | now apply check_y_sound].
+Qed.
+
+(* the excess allowed by the class, as a real-number law *)
+Lemma Q2R_alt_factor A : Q2R q_a + Q2R A <> 0 ->
+  Q2R (alt_factor A) = Q2R A * Q2R A * (6378137 / (6378137 + Q2R A)) ^ 3.
+Proof.
+  intros H. unfold alt_factor.
+  assert (Hq : ~ (q_a + A == 0)%Q).
+  { intros E. apply H. rewrite <- Q2R_plus. rewrite (Qeq_eqR _ _ E). unfold Q2R. cbn. lra. }
+  rewrite !Q2R_mult, !Q2R_div by exact Hq. rewrite Q2R_plus.
+  replace (Q2R q_a) with 6378137 by (unfold Q2R, q_a; cbn [Qnum Qden]; lra). unfold Rdiv. ring.
+Qed.
+Theorem excuse_is_bounded yref p q g :
+  (fwd_excused yref p q = true -> alt_zone_of (palt p) = ZIn ->
+   exists A X L Y YR, fq (palt p) = Some A /\ -6000000 <= Q2R A <= 33554432 /\
+     fq (px q) = Some X /\ fq (plon p) = Some L /\ Rabs (Q2R X - merc_x (rad (Q2R L))) <= 1 / 1000000 /\
+     fq (py q) = Some Y /\ fq (yref (plat p)) = Some YR /\
+     Rabs (Q2R Y - Q2R YR) <= 9 / 10000000 + 18 / 10 ^ 15 * (Q2R A * Q2R A * (6378137 / (6378137 + Q2R A)) ^ 3)) /\
+  (back_excused p g = true -> alt_zone_of (palt p) = ZIn ->
+   exists A B C, fq (palt p) = Some A /\ -6000000 <= Q2R A <= 33554432 /\ fq (plat g) = Some B /\ fq (plat p) = Some C /\
+     Rabs (Q2R B - Q2R C) <= 2 / 10 ^ 10 + 2 / 10 ^ 19 * (Q2R A * Q2R A * (6378137 / (6378137 + Q2R A)) ^ 3) /\
+     lon_close (plon g) (plon p) = true /\ palt g = palt p).
+Proof.
+  assert (Z : forall a A, alt_zone_of a = ZIn -> fq a = Some A -> -6000000 <= Q2R A <= 33554432).
+  { intros a A. unfold alt_zone_of. intros Hz E. rewrite E in Hz.
+    destruct (Qle_bool (- q_alt_max) A) eqn:H1; [|discriminate]. destruct (Qle_bool A q_alt_max) eqn:H2; [|discriminate].
+    cbn [andb negb] in Hz. destruct (Qle_bool q_alt_deep A) eqn:H3; [|discriminate].
+    apply Qle_bool_iff, Qle_Rle in H2, H3.
+    assert (E1 : Q2R q_alt_max = 33554432) by (unfold Q2R, q_alt_max; cbn [Qnum Qden]; lra).
+    assert (E2 : Q2R q_alt_deep = -6000000) by (unfold q_alt_deep; rewrite Q2R_opp; unfold Q2R; cbn [Qnum Qden]; lra).
+    lra. }
+  split; intros H Hz.
+  - unfold fwd_excused in H. rewrite Hz in H. apply andb_true_iff in H. destruct H as [_ H].
+    destruct (fq (palt p)) as [A|] eqn:EA; [|discriminate]. apply andb_true_iff in H. destruct H as [Hx Hy].
+    destruct (check_x_sound _ _ Hx) as (X & L & E1 & E2 & Bx). apply fclose_spec in Hy. destruct Hy as (Y & YR & E3 & E4 & By).
+    pose proof (Z _ _ Hz EA) as ZA. exists A, X, L, Y, YR. repeat split; auto; try lra.
+    rewrite Q2R_plus, Q2R_tol_ref in By. unfold excess_y in By. rewrite Q2R_mult, Q2R_alt_factor in By.
+    + replace (Q2R (18 # 1000000000000000)) with (18 / 10 ^ 15) in By by (unfold Q2R; cbn [Qnum Qden]; lra). exact By.
+    + unfold Q2R at 1, q_a. cbn [Qnum Qden]. lra.
+  - unfold back_excused in H. rewrite Hz in H. apply andb_true_iff in H. destruct H as [_ H].
+    destruct (fq (palt p)) as [A|] eqn:EA; [|discriminate]. rewrite !andb_true_iff in H. destruct H as [[Hl Hy] Ha].
+    apply fclose_spec in Hy. destruct Hy as (B & C & E3 & E4 & By).
+    pose proof (Z _ _ Hz EA) as ZA. exists A, B, C. repeat split; auto; try lra; [|now apply feqb_bits_eq].
+    rewrite Q2R_plus, Q2R_tol_deg in By. unfold excess_lat in By. rewrite Q2R_mult, Q2R_alt_factor in By.
+    + replace (Q2R (2 # 10000000000000000000)) with (2 / 10 ^ 19) in By by (unfold Q2R; cbn [Qnum Qden]; lra).
+      replace (2 / 10 ^ 10) with (2 / 10000000000) by lra. exact By.
+    + unfold Q2R at 1, q_a. cbn [Qnum Qden]. lra.
 Qed.
 
 Local Close Scope R_scope.
